@@ -9,9 +9,9 @@
     model, state and time.  Vocabulary ([WF], [comp_holds], [rhs_spec]): Spec.v. *)
 From Coq Require Import ZArith List Bool.
 From MxlBase Require Import ListX.
-From Core Require Import Sort GenSortFacts Model Cache Query QueryTC GenQueryFacts.
+From Core Require Import Sort GenSortFacts Model Cache CacheData Query QueryTC GenQueryFacts GenCacheFacts.
 From Core Require FnLib.
-From CoreP Require Import Spec ProofsStoich ProofsTop ProofsRhs ProofsUnique ProofsPartition ExModel ProofsTC ExTime.
+From CoreP Require Import Spec ProofsStoich ProofsTop ProofsRhs ProofsUnique ProofsPartition ExModel ProofsTC ExTime ProofsData.
 Import ListNotations.
 
 (** the bodies of __call__, _get_right_hand_side, _get_args (Query.v) and -- added in the second deepening
@@ -268,6 +268,98 @@ Theorem C01_rhs_time_course_rows_are_point_queries :
       /\ (~ In t (map fst rows) -> zlookup t d = None).
 Proof. exact rhs_time_course_rows. Qed.
 Print Assumptions C01_rhs_time_course_rows_are_point_queries.
+
+(** ---- closing round: data sets (seeded change C01-9) -------------------------------------------- *)
+
+(** the closure [all_parameter_names] of [_create_cache], which decides what is computed once and what is evaluated
+    per state, starts from the PARAMETER names only (regenerated from the source; the recognised alternative
+    [SeedParData] = "parameters and data sets" is the seeded shape of [C01_data_static_stale_refuted]) *)
+Theorem C01_split_seed_pinned : gen_split_seed = SeedPar.
+Proof. vm_compute. reflexivity. Qed.
+Print Assumptions C01_split_seed_pinned.
+
+(** a derived quantity that reads a data set, directly or through any chain of derived quantities ([ReadsData]), is
+    never frozen in the cache: it is not reported as a derived parameter, it has no entry in [all_parameter_values],
+    it is a derived variable -- so by [C01_args_fully_resolved] every query evaluates it from the data sets the model
+    holds at that moment ([env_of_dict (m_dat m) e]) *)
+Theorem C01_data_readers_are_recomputed :
+  forall fsem fsemN m c d,
+    WF m -> create_cache fsem fsemN gen_sort_facts m = Val c ->
+    In d (keys (m_der m)) -> ReadsData m d ->
+    ~ In d (derived_parameter_names m c)
+    /\ In d (derived_variable_names m c)
+    /\ lookup d (c_all_par c) = None.
+Proof. exact (data_readers_recomputed gen_sort_facts gen_sc). Qed.
+Print Assumptions C01_data_readers_are_recomputed.
+
+(** exchanging a data set ([Model.update_data]: KeyError for an unknown name, else the one entry is replaced) keeps a
+    well-formed model well formed ... *)
+Theorem C01_update_data_keeps_well_formed :
+  forall m k v m', WF m -> update_data m k v = Val m' -> WF m'.
+Proof. exact update_data_WF. Qed.
+Print Assumptions C01_update_data_keeps_well_formed.
+
+(** ... and with the cache rebuilt (what [@_invalidate_cache] on [update_data] forces; the decorator itself is pinned
+    by C03) every flux, derived quantity and surrogate output is its function of the values its arguments have NOW:
+    the new value for the exchanged data set, the old ones for the others, the supplied state and time *)
+Theorem C01_after_update_data :
+  forall fsem fsemN m k v m' c' vars t e,
+    WF m -> update_data m k v = Val m' ->
+    create_cache fsem fsemN gen_sort_facts m' = Val c' ->
+    NoDup (keys vars) -> incl (keys vars) (keys (m_var m)) ->
+    get_args_raw fsem fsemN m' c' vars t = Val e ->
+    lookup k (m_dat m') = Some v
+    /\ (forall k', k' <> k -> lookup k' (m_dat m') = lookup k' (m_dat m))
+    /\ lookup time_name e = Some t
+    /\ (forall x w, lookup x vars = Some w -> lookup x e = Some w)
+    /\ (forall nm cmp, In (nm, cmp) (containers m) -> comp_holds fsem fsemN nm cmp (env_of_dict (m_dat m') e)).
+Proof. exact (after_update_data gen_sort_facts gen_sc). Qed.
+Print Assumptions C01_after_update_data.
+
+(** [create_cache_seeded] with the shipped seed IS [create_cache] *)
+Theorem C01_seeded_par_is_shipped :
+  forall fsem fsemN F m, create_cache_seeded fsem fsemN par_seed F m = create_cache fsem fsemN F m.
+Proof. exact seeded_par_is_shipped. Qed.
+Print Assumptions C01_seeded_par_is_shipped.
+
+(** regression (seeded change C01-9, two cooperating edits): with data sets counted as static names AND a cache that
+    is kept across [update_data], the data-only derived quantities 6 and 7 of [ex_data_model] keep the values of the old
+    data set and the reported derivative (23) is not stoichiometry x rates over the resolved values (11); each edit alone
+    gives the right answer on this model *)
+Theorem C01_data_static_stale_refuted :
+  exists m k v m' c_old_seeded c_old c_new c_new_seeded vars t,
+    WF m /\ update_data m k v = Val m'
+    /\ create_cache_seeded FnLib.fsem FnLib.fsemN par_data_seed gen_sort_facts m = Val c_old_seeded
+    /\ create_cache FnLib.fsem FnLib.fsemN gen_sort_facts m = Val c_old
+    /\ create_cache FnLib.fsem FnLib.fsemN gen_sort_facts m' = Val c_new
+    /\ create_cache_seeded FnLib.fsem FnLib.fsemN par_data_seed gen_sort_facts m' = Val c_new_seeded
+    /\ (exists e, get_args_raw FnLib.fsem FnLib.fsemN m' c_new vars t = Val e
+                  /\ rhs_spec FnLib.fsem 3%N (all_rxn_entries m') e = Some 11%Z)
+    /\ get_rhs FnLib.fsem FnLib.fsemN m' c_new vars t = Val [(3%N, 11%Z); (4%N, 0%Z)]
+    /\ get_rhs FnLib.fsem FnLib.fsemN m' c_new_seeded vars t = Val [(3%N, 11%Z); (4%N, 0%Z)]
+    /\ get_rhs FnLib.fsem FnLib.fsemN m' c_old vars t = Val [(3%N, 11%Z); (4%N, 0%Z)]
+    /\ get_rhs FnLib.fsem FnLib.fsemN m' c_old_seeded vars t = Val [(3%N, 23%Z); (4%N, 0%Z)]
+    /\ lookup 6%N (c_all_par c_old_seeded) = Some 9%Z /\ lookup 7%N (c_all_par c_old_seeded) = Some 18%Z.
+Proof. exact data_static_stale_refuted. Qed.
+Print Assumptions C01_data_static_stale_refuted.
+
+(** non-vacuity: [ex_data_model] (derived 6 = data + parameter, derived 7 = 6 * parameter, derived 8 = data * variable,
+    reaction 9 = 7 + 8) is well formed, 7 reads the data set through 6, its cache is built and reports 6, 7, 8 as derived
+    variables; after update_data 14 := 1 the model is well formed again and the rebuilt cache gives 11 *)
+Example C01_data_nonvacuous :
+  WF ex_data_model /\ ReadsData ex_data_model 7%N /\ In 7%N (keys (m_der ex_data_model))
+  /\ exists c m' c',
+      create_cache FnLib.fsem FnLib.fsemN gen_sort_facts ex_data_model = Val c
+      /\ derived_variable_names ex_data_model c = [6; 7; 8]%N
+      /\ update_data ex_data_model 14%N 1%Z = Val m'
+      /\ create_cache FnLib.fsem FnLib.fsemN gen_sort_facts m' = Val c'
+      /\ get_rhs FnLib.fsem FnLib.fsemN m' c' [(3%N, 5%Z); (4%N, 1%Z)] 2%Z = Val [(3%N, 11%Z); (4%N, 0%Z)].
+Proof.
+  split; [exact ex_data_model_WF|]. split; [exact (proj1 ex_data_reads)|]. split; [exact (proj2 ex_data_reads)|].
+  eexists. eexists. eexists. split; [vm_compute; reflexivity|]. split; [vm_compute; reflexivity|].
+  split; [vm_compute; reflexivity|]. split; vm_compute; reflexivity.
+Qed.
+Print Assumptions C01_data_nonvacuous.
 
 (** non-vacuity of the time-course statements: the model of ExTime.v (only a surrogate reads the time;
     a derived quantity and a reaction sit downstream of its outputs) is well formed; a 4-row frame with a
